@@ -22,7 +22,7 @@ add("C04", "property-based testing (rapid): byte-level inputs with rewritten lin
 add("C05", "property-based testing (rapid): generated programs under all trivia policies + error-free byte-level inputs; oracle: recorded node span == span recomputed from the node's own token positions with the documented conventions, nesting and sibling order",
     "Exploration: every node of every error-free tree; coverage measured as distinct (kind < parent.slot, family) sites.",
     "Four test-pinned span deviations are tolerated by matchers keyed on node kind/slot/family and reported as KNOWN-FINDING.")
-add("C06", "property-based testing (rapid): valid generated programs + one guaranteed-invalid edit (bracket insert/delete, truncation inside brackets, control byte, deleted ';' between two operands) must report; error-shape invariants and callback/no-callback differential on arbitrary inputs; thorough adds native go test -fuzz with the same oracle inside the target",
+add("C06", "property-based testing (rapid): valid generated programs + one guaranteed-invalid edit (bracket insert/delete, truncation inside brackets, control byte, deleted ';' between two operands, __halt_compiler(); nested in a block) must report; error-shape invariants and callback/no-callback differential on arbitrary inputs; thorough adds native go test -fuzz with the same oracle inside the target",
     "Exploration: guaranteed-invalid edits with an argument why no PHP grammar accepts them; error message/position/line/order invariants; silent parse => complete tiling tree; tree equality with and without callback incl. PHP 5 semantic-error programs.",
     "Grammar leniency is deliberately not probed (only edits with a proof of invalidity). PHP 5 semantic errors arrive out of source order (open finding).")
 add("C07", "property-based testing (rapid): metamorphic - insert a malformed statement at a drawn boundary of a drawn statement list of a generated program and compare with the error-free parse (prefix preserved, parsing resumes); runs of n malformed statements with numbered sentinels (n around powers of two and ten); print-clause invariants on every recovered tree; thorough adds native go test -fuzz for the print clause",
@@ -37,10 +37,10 @@ add("C09", "exhaustive enumeration of a (major, minor) grid incl. boundary/huge 
 add("C10", "property-based differential testing (rapid): programs generated from the common PHP 5/7 subset under all trivia policies, parsed under a 5.x and a 7.x version; trees must be equal in structure, tokens and positions; plus the exhaustive operator-nest enumeration over the shared operators",
     "Exploration: the common subset is defined by the generator (PHP 5.6 constructs minus what the uniform-variable-syntax RFC regrouped and minus PHP 7-only syntax), not by asking the two parsers.",
     "Shapes behind the PHP 5-only span findings are excluded (counted).")
-add("C11", "race-detector monitoring (go test -race) + property-based differential testing of generated job sets: concurrent results vs sequential reference; parse-twice and run-repeatedly determinism (all pipelines, incl. resolver-heavy programs with case-variant duplicate aliases); stateful parse histories (drawn sequences of parses of a few jobs with garbage collections in between: same result every time, kept trees unchanged); the race-built command-line tool over directories of many files vs the files processed alone",
+add("C11", "race-detector monitoring (go test -race) + property-based differential testing of generated job sets: concurrent results vs sequential reference; parse-twice and run-repeatedly determinism (all pipelines, incl. resolver-heavy programs with case-variant duplicate aliases); stateful parse histories (drawn sequences of parses of a few jobs with garbage collections in between: same result every time; kept trees, kept error objects and kept resolved-name maps unchanged at the end); the race-built command-line tool over directories of many files vs the files processed alone",
     "Exploration: 8-40 pipelines on 2-32 goroutines over all 12 versions; every observable result compared with its sequential reference; any race report is a violation; job sets include 'twin' inputs that agree in most offsets (state kept per offset by recycled objects); parse histories of 3-14 steps; `php-parser -pb -r -e` (race build, GOMAXPROCS 2-16) over 8-60 files. Schedules are NOT enumerated: the harness does not control the Go scheduler.",
     "Logical races on properly synchronised shared state are only caught if they change a result in the runs made.")
-add("C12", "exhaustive enumeration of node kind x child-slot subsets with marker leaves + property-based testing on parsed trees; oracle: recording visitor (generated from the ast.Visitor interface) vs reflective source-order walk",
+add("C12", "exhaustive enumeration of node kind x child-slot subsets with marker leaves + property-based testing on parsed trees (as parsed, again after a traversal with the name resolver as visitor, and with one Traverser object re-used); oracle: recording visitor (generated from the ast.Visitor interface) vs reflective source-order walk",
     "Exploration: exhaustive over all kinds and child-slot subsets (list lengths 0/1/3); all parsed trees of generated programs, byte-level inputs, large programs (120-200 statements) and programs repeating a few statements up to 4200 times.",
     "Relies on the field-order convention of pkg/ast/node.go (self-tested).")
 add("C13", "property-based stateful testing (rapid): histories of print/dump/traverse/resolve on one tree vs fresh-parse references, full-tree and slice-capacity fingerprints after every step, source-buffer equality; pointer-disjointness of two parses",
@@ -52,7 +52,7 @@ add("C14", "property-based model-based testing (rapid): programs rendered from a
 add("C15", "exhaustive enumeration of node kind x slot subsets with unique marker tokens/free-floating tokens/leaves + property-based subtree replacement, token-value edits and token removal on parsed trees (files with inline HTML, close tags and shebang lines included); oracle: reflective source order + independent canonical-lexeme table",
     "Exploration: exhaustive for kinds with <= 10 slots, all/none/single/pair subsets for larger kinds, list lengths and separator-count variants; replacement locality on generated programs.",
     "The canonical-lexeme table is hand-written from PHP syntax; free-text slots (heredoc labels) accept any identifier-like text.")
-add("C16", "exhaustive enumeration of node kind x slot subsets (hostile values, with/without tokens/positions) + property-based testing on parsed trees; oracle: go/parser + lock-step reader against the reflective schema",
+add("C16", "exhaustive enumeration of node kind x slot subsets (hostile values, with/without tokens/positions) + property-based testing on parsed trees (incl. one Dumper re-used for several dumps); oracle: go/parser + lock-step reader against the reflective schema",
     "Exploration: exhaustive for kinds with <= 10 slots, all/none/single/pair subsets for larger kinds, random subsets, all four option combinations; dumps of parsed trees; the dump printed by `php-parser -d` against the library's dump and the tree.",
     "Empty non-nil lists may be dumped as empty literals or omitted (both accepted).")
 add("C17", "property-based testing (rapid): generated programs in three renderings; oracles: parse(F(src)) == parse(src) structurally, F canonical across whitespace-only re-layouts, F idempotent, no panic; plus the exhaustive operator-nest enumeration (minimal vs spaced rendering)",
